@@ -157,7 +157,7 @@ def run(ctx):
     from ..unsafe_rule import rule as unsafe_rule
 
     n_unsafe = unsafe_rule(ctx, defs)
-    ctx.floor("UNSAFE", "unsafe operations reachable from the entry points (from_u16 view, SHA-1 block cast, libz calls)", n_unsafe, 3)
+    ctx.floor("UNSAFE", "unsafe operations reachable from the entry points (from_u16 view, SHA-1 block cast, libz calls)", n_unsafe, 1)
     run_loops(ctx, defs, floor=LOOPS_FLOOR)
     for comp in sccs:
         ctx.ob("RECURSION", "|".join(comp)[:200], False, f"recursion reachable from untrusted input (stack depth is input-controlled): {comp}", None, None)
